@@ -57,13 +57,22 @@ TKromeCopy ==
                  /\ Note("KromeCopy:RateValue", Ev.same_rate[k])
        ELSE TRUE
   /\ UNCHANGED tvars
+(* beyond the listed properties, notes only: the UCLCHEM copy.  Reaction.__format__("uclchem") accepts a reaction or raises; an accepted
+   reaction read back by the UCLCHEM reader has the same species with multiplicity and the same window (the two bounds are printed in full) *)
+TUclchemCopy ==
+  /\ IsEv("UclchemCopy")
+  /\ \A k \in DOMAIN Ev.written :
+       /\ Note("UclchemCopy:Written", Ev.written[k])
+       /\ Ev.written[k] => /\ Note("UclchemCopy:SpeciesWithMultiplicity", Ev.same_species[k])
+                           /\ Note("UclchemCopy:Window", Ev.same_window[k])
+  /\ UNCHANGED tvars
 (* a network holding a reaction WITHOUT a native type code (a Leeds type the exchange format has no code for) may be refused by the writer --
    loudly, before anything is written; a refusal of any other network is not covered by this *)
 TWriteRefused ==
   /\ IsEv("WriteRefused") /\ pc = "write1"
   /\ Chk("WriteSucceeds", \E k \in DOMAIN net : net[k].ty = -1)
   /\ UNCHANGED tvars
-TNext == TWriteRefused \/ TWrite1 \/ TRead1 \/ TModify \/ TWrite2 \/ TRead2 \/ TRerender \/ TExport \/ TKromeCopy
+TNext == TWriteRefused \/ TWrite1 \/ TRead1 \/ TModify \/ TWrite2 \/ TRead2 \/ TRerender \/ TExport \/ TKromeCopy \/ TUclchemCopy
 TSpec == TInit /\ [][TNext]_<<tvars, tid, l>>
 Track ==
   /\ Chk("Inv:ReadWriteId", ReadWriteId)
